@@ -219,7 +219,7 @@ def _run(ctx, libdir, rebound, ft, E, rng, tmpd):
                                  % (a - 1, a, ";".join("%d%%nat" % k for k in cc))))
                 coq_meta.append(("cut", si, a, cc))
             # restart from the last intact snapshot for a few cuts, continue the history, compare with the uninterrupted run
-            for k in sorted(set(([1, 9, 11, 12, 13, wlen // 2, wlen - 29, wlen - 13, wlen - 1] if (ctx.thorough or si == 0) else [10, wlen - 13]) + [rng.randrange(wlen)])):
+            for k in sorted(set(([1, 9, 11, 12, 13, wlen // 2, wlen - 29, wlen - 13, wlen - 11, wlen - 6, wlen - 1] if (ctx.thorough or si == 0) else [10, wlen - 13, wlen - 7, wlen - 2]) + [rng.randrange(wlen)])):
                 if 0 <= k < wlen:
                     p = os.path.join(tmpd, "res_%d_%d_%d.bin" % (si, a, k))
                     open(p, "wb").write(image(fa, fb, k))
